@@ -124,3 +124,209 @@ Proof.
   specialize (Hf r Hin). apply existsb_in in Hf. destruct (HInv r Hf) as [l [Hl Hge]].
   unfold result_alias. rewrite Hl. destruct (Nat.ltb l nargs) eqn:E; auto. apply Nat.ltb_lt in E. lia.
 Qed.
+
+(* ================================================================================================================
+   Soundness of the may-alias analysis of effect programs (Store/Effects.v, Store/EffectsInline.v) with respect to
+   the store model: every run a flat program stands for - any sequence of instances of its steps - leaves every
+   argument version unchanged when the CHECKED abstract state shows no write to an object that may be an argument,
+   and binds the result to a fresh object when it shows that no argument is reachable from the result.
+   ================================================================================================================ *)
+From Coq Require Import NArith PArith FSets.FSetPositive FSets.FMapPositive String.
+From RV Require Import Store.Effects.
+
+Lemma ps_subset_mem s t a : PS.subset s t = true -> PS.mem a s = true -> PS.mem a t = true.
+Proof.
+  intros Hs Ha. apply PS.mem_1. pose proof (@PS.subset_2 s t Hs) as HH. apply HH. apply PS.mem_2. exact Ha.
+Qed.
+
+Lemma reach_in_subset st s t a : reach_in st s t = true -> PS.mem a s = true -> PS.mem a t = true.
+Proof.
+  unfold reach_in. intro H. apply andb_true_iff in H. destruct H as [H _]. apply ps_subset_mem. exact H.
+Qed.
+
+(* what the check guarantees about a step that moves a reference: ARG flows from y to x *)
+Lemma step_ok_flow st s x y :
+  step_ok st s = true -> (s = FAlias x y \/ s = FLoad x y \/ s = FReach x y) ->
+  PS.mem ARG (pts_of st y) = true -> PS.mem ARG (pts_of st x) = true.
+Proof.
+  intros Hok [->|[->| ->]] Hy; cbn [step_ok] in Hok.
+  - exact (ps_subset_mem _ _ _ Hok Hy).
+  - exact (reach_in_subset _ _ _ _ Hok Hy).
+  - apply andb_true_iff in Hok. destruct Hok as [Hok _]. exact (ps_subset_mem _ _ _ Hok Hy).
+Qed.
+
+Definition no_arg_write (st : astate) (p : list fstep) : Prop :=
+  forall x, In (FWrite x) p -> PS.mem ARG (pts_of st x) = false.
+
+Lemma writes_in p x : In (FWrite x) p -> In x (writes p).
+Proof.
+  unfold writes. intro H. apply in_flat_map. exists (FWrite x). split; [exact H|left; reflexivity].
+Qed.
+
+Lemma flat_pureb_facts nargs p st : flat_pureb nargs p st = true ->
+  (forall k, k < nargs -> PS.mem ARG (pts_of st (N.of_nat k)) = true)
+  /\ (forall s, In s p -> step_ok st s = true)
+  /\ no_arg_write st p.
+Proof.
+  unfold flat_pureb, closedb. intro H.
+  apply andb_true_iff in H. destruct H as [H Hw]. apply andb_true_iff in H. destruct H as [_ H].
+  apply andb_true_iff in H. destruct H as [Hseed Hsteps].
+  rewrite forallb_forall in Hseed, Hsteps, Hw. repeat split.
+  - intros k Hk. apply Hseed. apply in_seq. lia.
+  - exact Hsteps.
+  - intros x Hin. specialize (Hw x (writes_in _ _ Hin)). apply negb_true_iff in Hw. exact Hw.
+Qed.
+
+(* the invariant of a run: a variable bound to an argument object may be ARG in the abstract state; the argument
+   versions are the initial ones; the program's own objects lie above the arguments *)
+Definition EInv (nargs : nat) (st : astate) (e : env) (s : store) : Prop :=
+  nargs <= next s
+  /\ (forall k l, lookup k e = Some l -> l < nargs -> PS.mem ARG (pts_of st (N.of_nat k)) = true)
+  /\ (forall l, l < nargs -> lookup l (versions s) = Some 0).
+
+Lemma of_nat_nv x : N.of_nat (nv x) = x.
+Proof. unfold nv. apply N2Nat.id. Qed.
+
+Lemma einv_init nargs st :
+  (forall k, k < nargs -> PS.mem ARG (pts_of st (N.of_nat k)) = true) ->
+  EInv nargs st (init_env nargs) (init_store nargs).
+Proof.
+  intro Hseed. split; [cbn; lia|]. split.
+  - intros k l Hl Hlt.
+    assert (G: forall a n, lookup k (map (fun k0 => (k0, k0)) (seq a n)) = Some l -> l = k /\ a <= k < a + n).
+    { intros a n. revert a. induction n as [|n IH]; intros a HH; cbn [seq map lookup] in HH; [discriminate|].
+      destruct (Nat.eqb k a) eqn:E.
+      - apply Nat.eqb_eq in E. injection HH as <-. subst a. split; [reflexivity|lia].
+      - destruct (IH _ HH) as [-> Hr]. split; [reflexivity|lia]. }
+    unfold init_env in Hl. destruct (G _ _ Hl) as [-> _]. apply Hseed. exact Hlt.
+  - intros l Hl. apply lookup_init_versions. exact Hl.
+Qed.
+
+Lemma einv_step nargs st p e s i :
+  (forall s0, In s0 p -> step_ok st s0 = true) -> no_arg_write st p ->
+  (exists s0, In s0 p /\ conc s0 i) ->
+  EInv nargs st e s -> EInv nargs st (fst (step e s i)) (snd (step e s i)).
+Proof.
+  intros Hok Hw [s0 [Hin Hc]] [Hn [He Hv]].
+  assert (ALIAS: forall x y, (s0 = FAlias x y \/ s0 = FLoad x y \/ s0 = FReach x y) ->
+                 EInv nargs st (fst (step e s (IAlias (nv x) (nv y)))) (snd (step e s (IAlias (nv x) (nv y))))).
+  { intros x y Hs. cbn [step]. destruct (lookup (nv y) e) as [l|] eqn:El; cbn [fst snd]; [|repeat split; assumption].
+    split; [exact Hn|]. split; [|exact Hv].
+    intros k l' Hl' Hlt. cbn [lookup] in Hl'. destruct (Nat.eqb k (nv x)) eqn:E.
+    - apply Nat.eqb_eq in E. subst k. injection Hl' as <-. rewrite of_nat_nv.
+      apply (step_ok_flow st s0 x y (Hok _ Hin) Hs). rewrite <- (of_nat_nv y). exact (He _ _ El Hlt).
+    - exact (He _ _ Hl' Hlt). }
+  inversion Hc as [x srcs Hs Hi|x y Hs Hi|x y Hs Hi|x y Hs Hi|x srcs Hs Hi]; subst i.
+  - (* alloc *) cbn [step fst snd]. split; [cbn [next]; lia|]. split.
+    + intros k l Hl Hlt. cbn [lookup] in Hl. destruct (Nat.eqb k (nv x)) eqn:E.
+      * injection Hl as <-. lia.
+      * exact (He _ _ Hl Hlt).
+    + intros l Hl. cbn [versions lookup]. destruct (Nat.eqb l (next s)) eqn:E.
+      * apply Nat.eqb_eq in E. lia.
+      * exact (Hv _ Hl).
+  - apply ALIAS. left. symmetry. exact Hs.
+  - apply ALIAS. right. left. symmetry. exact Hs.
+  - apply ALIAS. right. right. symmetry. exact Hs.
+  - (* write *) cbn [step]. destruct (lookup (nv x) e) as [l|] eqn:El; cbn [fst snd]; [|repeat split; assumption].
+    split; [exact Hn|]. split; [exact He|].
+    intros l' Hl'. cbn [versions]. rewrite lookup_bump_other; [exact (Hv _ Hl')|].
+    intro Heq. subst l'. pose proof (He _ _ El Hl') as Hm. rewrite of_nat_nv in Hm.
+    rewrite (Hw x) in Hm; [discriminate|]. rewrite Hs. exact Hin.
+Qed.
+
+Lemma einv_run nargs st p t :
+  (forall s0, In s0 p -> step_ok st s0 = true) -> no_arg_write st p -> run_of p t ->
+  forall e s, EInv nargs st e s -> EInv nargs st (fst (run e s t)) (snd (run e s t)).
+Proof.
+  intros Hok Hw Hr. induction Hr as [|i t Hi Ht IH]; intros e s HI; [exact HI|].
+  cbn [run]. destruct (step e s i) as [e' s'] eqn:Es.
+  apply IH. pose proof (einv_step nargs st p e s i Hok Hw Hi HI) as H. rewrite Es in H. exact H.
+Qed.
+
+Lemma unchanged_of_versions nargs s :
+  (forall l, l < nargs -> lookup l (versions s) = Some 0) -> changed_args nargs s = repeat false nargs.
+Proof.
+  intro F. unfold changed_args.
+  assert (G: forall a n, a + n <= nargs ->
+             map (fun k => match lookup k (versions s) with Some 0 => false | _ => true end) (seq a n) = repeat false n).
+  { intros a n. revert a. induction n as [|n IH]; intros a Hle; [reflexivity|]. cbn [seq map repeat].
+    rewrite (F a ltac:(lia)). f_equal. apply IH. lia. }
+  apply (G 0 nargs). lia.
+Qed.
+
+(* PURITY: no run of a program that passes the check changes an argument *)
+Theorem flat_pure_sound nargs p st :
+  flat_pureb nargs p st = true ->
+  forall t results, run_of p t -> fst (outcome nargs t results) = repeat false nargs.
+Proof.
+  intros Hp t results Hr. destruct (flat_pureb_facts _ _ _ Hp) as [Hseed [Hok Hw]].
+  pose proof (einv_run nargs st p t Hok Hw Hr _ _ (einv_init nargs st Hseed)) as [_ [_ Hv]].
+  unfold outcome. destruct (run (init_env nargs) (init_store nargs) t) as [e s]. cbn [fst snd] in *.
+  apply unchanged_of_versions. exact Hv.
+Qed.
+
+(* OWNERSHIP: ... and the result is bound to an object the program created itself *)
+Theorem flat_owned_sound nargs p st ret rd :
+  flat_ownedb nargs p st ret rd = true ->
+  forall t, run_of p t -> outcome nargs t [nv ret] = (repeat false nargs, [None]).
+Proof.
+  unfold flat_ownedb. intros H t Hr.
+  apply andb_true_iff in H. destruct H as [H Hrd]. apply andb_true_iff in H. destruct H as [Hp Hex].
+  apply negb_true_iff in Hrd.
+  destruct (flat_pureb_facts _ _ _ Hp) as [Hseed [Hok Hw]].
+  pose proof (einv_run nargs st p t Hok Hw Hr _ _ (einv_init nargs st Hseed)) as [_ [He Hv]].
+  unfold outcome. destruct (run (init_env nargs) (init_store nargs) t) as [e s]. cbn [fst snd] in *.
+  f_equal; [apply unchanged_of_versions; exact Hv|].
+  cbn [map]. f_equal. unfold result_alias. destruct (lookup (nv ret) e) as [l|] eqn:El; [|reflexivity].
+  destruct (Nat.ltb l nargs) eqn:E; [|reflexivity]. apply Nat.ltb_lt in E.
+  pose proof (He _ _ El E) as Hm. rewrite of_nat_nv in Hm.
+  apply existsb_exists in Hex. destruct Hex as [s0 [Hin Hs0]].
+  destruct s0 as [x|x y|x y|x y|x y|x|]; try discriminate.
+  apply andb_true_iff in Hs0. destruct Hs0 as [Ex Ey]. apply N.eqb_eq in Ex. apply N.eqb_eq in Ey. subst x y.
+  pose proof (step_ok_flow st _ rd ret (Hok _ Hin) (or_intror (or_intror eq_refl)) Hm) as Hc.
+  rewrite Hrd in Hc. discriminate.
+Qed.
+
+(* the same, from any state of a run in progress that satisfies the invariant: operations applied one after another
+   compose (the second program is analysed with the variables the first one left bound) *)
+Theorem flat_pure_sound_from nargs p st :
+  flat_pureb nargs p st = true ->
+  forall t e s, run_of p t -> EInv nargs st e s -> EInv nargs st (fst (run e s t)) (snd (run e s t)).
+Proof.
+  intros Hp t e s Hr HI. destruct (flat_pureb_facts _ _ _ Hp) as [_ [Hok Hw]].
+  exact (einv_run nargs st p t Hok Hw Hr e s HI).
+Qed.
+
+Lemma run_of_app p q t u : run_of p t -> run_of q u -> run_of (p ++ q) (t ++ u).
+Proof.
+  unfold run_of. intros Hp Hq. apply Forall_app. split.
+  - eapply Forall_impl; [|exact Hp]. intros i [s [Hin Hc]]. exists s. split; [apply in_or_app; left; exact Hin|exact Hc].
+  - eapply Forall_impl; [|exact Hq]. intros i [s [Hin Hc]]. exists s. split; [apply in_or_app; right; exact Hin|exact Hc].
+Qed.
+
+(* ---- the same two theorems for the programs of the generated table (harness/tables/effects.py -> Tables.effects):
+        `flat_of` inlines the callees, `analyse` runs the iteration and the check ---- *)
+From RV Require Import Generated.Tables Store.EffectsInline.
+Import Tables.effects.
+
+Theorem effect_pure_sound f :
+  effect_pureb f = true ->
+  forall t results, run_of (flat_of c14_effects f) t ->
+  fst (outcome (nargs_of f) t results) = repeat false (nargs_of f).
+Proof.
+  unfold effect_pureb, analyse. cbv beta zeta. cbn [fst]. intro H.
+  exact (flat_pure_sound _ _ _ H).
+Qed.
+
+Theorem effect_owned_sound f :
+  effect_ownedb f = true ->
+  forall t, run_of (flat_of c14_effects f) t ->
+  outcome (nargs_of f) t [nv (ef_ret f)] = (repeat false (nargs_of f), [None]).
+Proof.
+  unfold effect_ownedb, analyse. cbv beta zeta. cbn [snd]. intro H.
+  exact (flat_owned_sound _ _ _ _ _ H).
+Qed.
+
+(* the verdicts the runner looks up are the analysis' verdicts *)
+Lemma effect_verdicts_are_analysis : effect_verdicts = map (analyse c14_effects) c14_effects.
+Proof. vm_compute. reflexivity. Qed.
